@@ -2,6 +2,7 @@ import Driver.Proto
 import Driver.PlyIO
 import PolyVerif.Model.Ply
 import PolyVerif.Model.PlySpec
+import PolyVerif.Model.PlySpecKeys
 
 namespace Driver.C08
 open PolyVerif.Ply PolyVerif.PlySpec Driver.PlyIO
@@ -89,6 +90,11 @@ def handle (op : String) (args : List String) : Option String :=
       | some fe =>
         let hasOther := fe.faces.any (fun fc => fc.verts.length != 3 && fc.verts.length != 4)
         pure (boolStr (hasOther && rest == ["err"]))
+  | "c08.holds.claim_keys" => do
+      -- theorem ply_spec_claim_keys_oracle / ply_spec_attribute_keys_are_meaning: the readers the claim stage builds on the
+      -- header have exactly the (arity, attribute) keys `meaning` installs
+      let f ← run pSpec args
+      pure (boolStr (builtKeys f == meaningKeys f))
   | "c08.holds.header_cut_rejected" =>
       -- args: cut position, result class of ply.ReadHeader on the strict prefix; theorem ply_header_cut_bytes: an error
       some (boolStr (match args with | [_, "err"] => true | _ => false))
